@@ -85,6 +85,19 @@ def project(world=None):
         n = ncount.get(key, 0)
         ncount[key] = n + 1
         ax_sid[a[1]] = '%s@%d.%d' % (ts, idx, n)
+    idmap = {}
+    idmap.update(wf_sid)
+    idmap.update(tk_sid)
+    idmap.update(ax_sid)
+    import re as _re
+    _uu = _re.compile(r'[0-9a-f]{8}-[0-9a-f]{4}-[0-9a-f]{4}-[0-9a-f]{4}-[0-9a-f]{12}')
+
+    def scrub(text):
+        # row ids inside messages / outputs are replaced by the structural ids (unknown uuids by a placeholder)
+        if not isinstance(text, str) or '-' not in text:
+            return text
+        return _uu.sub(lambda m: idmap.get(m.group(0), '<id>'), text)
+
     out_wf = []
     for w in wfs:
         sid = wf_sid.get(w[1])
@@ -92,7 +105,7 @@ def project(world=None):
             continue
         rc = _j(w[12]) or {}
         params = _j(w[8]) or {}
-        out_wf.append(dict(sid=sid, name=w[2], state=w[3], info=(w[4] or '')[:200], output=canon(_j(w[5])),
+        out_wf.append(dict(sid=sid, name=w[2], state=w[3], info=scrub((w[4] or ''))[:200], output=scrub(canon(_j(w[5]))),
                            parent=tk_sid.get(w[6], '') if w[6] else '', root=wf_sid.get(w[7], sid) if w[7] else sid,
                            accepted=bool(w[11]), idx=(rc.get('index', 0) or 0), backlog=len(rc.get('backlog_commands', []) or []),
                            ns=(params.get('namespace') if params.get('namespace') is not None else (w[13] or '')), env=canon(params.get('env')), project=w[14] or ''))
@@ -106,9 +119,9 @@ def project(world=None):
         trig = [tk_sid.get(x, '?') for x in (rc.get('triggered_by') or []) if isinstance(x, str)] \
             if isinstance(rc.get('triggered_by'), list) and rc.get('triggered_by') and isinstance(rc.get('triggered_by')[0], str) \
             else [tk_sid.get((x or {}).get('task_id'), '?') for x in (rc.get('triggered_by') or []) if isinstance(x, dict)]
-        out_tk.append(dict(sid=sid, wf=wf_sid[t[3]], name=t[2], state=t[4], info=(t[5] or '')[:200], processed=bool(t[6]),
+        out_tk.append(dict(sid=sid, wf=wf_sid[t[3]], name=t[2], state=t[4], info=scrub((t[5] or ''))[:200], processed=bool(t[6]),
                            hasNext=bool(t[7]), next=[n[0] if isinstance(n, (list, tuple)) else str(n) for n in nxt],
-                           errHandled=bool(t[9]), inCtx=canon(_strip(_j(t[10]))), published=canon(_j(t[11])),
+                           errHandled=bool(t[9]), inCtx=scrub(canon(_strip(_j(t[10])))), published=scrub(canon(_j(t[11]))),
                            trig=sorted(trig), isJoin=bool(t[13] and str(t[13]).startswith('join-task')),
                            retryNo=((rc.get('retry_task_policy') or {}).get('retry_no', 0) or 0),
                            wiCount=((rc.get('with_items') or {}).get('count', -1)),
@@ -120,7 +133,7 @@ def project(world=None):
             continue
         rc = _j(a[8]) or {}
         out_ax.append(dict(sid=sid, task=tk_sid[a[3]], idx=rc.get('index', 0), state=a[4], accepted=bool(a[5]),
-                           out=canon(_j(a[6])), isSync=bool(a[9]), name=a[2],
+                           out=scrub(canon(_j(a[6]))), isSync=bool(a[9]), name=a[2],
                            hb=(-1 if a[10] is None else _vt(a[10]))))
     ids = dict(wf={v: k for k, v in wf_sid.items()}, tk={v: k for k, v in tk_sid.items()}, ax={v: k for k, v in ax_sid.items()},
                wf_rev=wf_sid, tk_rev=tk_sid, ax_rev=ax_sid)
